@@ -903,32 +903,44 @@ func c12(r *core.Run) {
 			o.Fail(p.InstrPos(route[0]), "DelCtx routes by %s, not by an element of keys", w.shape(elem, nil))
 			return
 		}
-		// range index: φ(-1, φ+1) compared with len(keys)
-		inc, ok := ia.Index.(*ssa.BinOp)
-		var phi *ssa.Phi
-		if ok && inc.Op == token.ADD {
-			phi, _ = inc.X.(*ssa.Phi)
-		}
+		// the index visits 0..len(keys)-1: either the range form φ(-1, φ+1) with the incremented value as
+		// index and loop test, or the index-loop form φ(0, φ+1) with the φ itself as index and loop test
 		full := false
 		var cond *ssa.BinOp
-		if phi != nil && len(phi.Edges) >= 2 {
-			one, isOne := core.ConstInt(inc.Y)
+		isKeysLen := core.IsLenOf(func(v ssa.Value) bool { return w.paramIndex(v) == keysIdx })
+		loopOver := func(phi *ssa.Phi, start int64, tested ssa.Value) {
+			if phi == nil || len(phi.Edges) < 2 {
+				return
+			}
 			starts, backs := 0, 0
 			for _, e := range phi.Edges {
-				if c0, isC := core.ConstInt(e); isC && c0 == -1 {
+				if c0, isC := core.ConstInt(e); isC && c0 == start {
 					starts++
-				} else if e == ssa.Value(inc) {
-					backs++
-				}
-			}
-			if starts == 1 && backs == len(phi.Edges)-1 && isOne && one == 1 {
-				for _, ref := range *inc.Referrers() {
-					if b, ok := ref.(*ssa.BinOp); ok && b.Op == token.LSS && b.X == ssa.Value(inc) && core.IsLenOf(func(v ssa.Value) bool { return w.paramIndex(v) == keysIdx })(b.Y) {
-						full = true
-						cond = b
+				} else if b, ok := e.(*ssa.BinOp); ok && b.Op == token.ADD && b.X == ssa.Value(phi) {
+					if one, isOne := core.ConstInt(b.Y); isOne && one == 1 {
+						backs++
 					}
 				}
 			}
+			if starts != 1 || backs != len(phi.Edges)-1 {
+				return
+			}
+			for _, ref := range *tested.Referrers() {
+				if b, ok := ref.(*ssa.BinOp); ok && b.Op == token.LSS && b.X == tested && isKeysLen(b.Y) {
+					full, cond = true, b
+				}
+				if b, ok := ref.(*ssa.BinOp); ok && b.Op == token.GTR && b.Y == tested && isKeysLen(b.X) {
+					full, cond = true, b
+				}
+			}
+		}
+		if inc, ok := ia.Index.(*ssa.BinOp); ok && inc.Op == token.ADD {
+			if one, isOne := core.ConstInt(inc.Y); isOne && one == 1 {
+				phi, _ := inc.X.(*ssa.Phi)
+				loopOver(phi, -1, inc)
+			}
+		} else if phi, ok := ia.Index.(*ssa.Phi); ok {
+			loopOver(phi, 0, phi)
 		}
 		if !full {
 			o.Fail(p.InstrPos(route[0]), "DelCtx: the routed key is keys[%s], not the element of a full range over keys", w.shape(ia.Index, nil))
